@@ -61,7 +61,7 @@ INFO_PROBES = [
 ]
 
 # reason reported by the model for a wrapper that does not compile -> finding id
-WHY_FINDING = {"unnamed": "F6", "shadow": "F6", "dup": "F6", "void": "F25", "zero": "F5", "emptylhs": "F5",
+WHY_FINDING = {"unnamed": "F6", "shadow": "F6", "dup": "F6b", "void": "F25", "zero": "F5", "emptylhs": "F5",
                "errtype": "errtype", "errrecv": "errrecv", "typednil": "typednil", "locals": "locals", "resultname": "resultname"}
 WHY_TEXT = {
     "unnamed": "unnamed parameters: the wrapper body is printed as `f(, )` and does not compile",
@@ -391,13 +391,13 @@ APPLICABLE = {
         (("unnamedFixed", "shadowFixed"), ["curry_spec_fixed", "flip_spec_fixed", "apply_spec_fixed"],
          ["curry_spec_partial", "flip_spec_partial", "apply_spec_partial",
           "curry_full_fails", "flip_full_fails", "apply_full_fails"]),
-        (("unnamedFixed", "shadowFixed", "prefixFixed"), ["uncurry_curry_fixed", "uncurry_spec_prefix (only the user's own clash left: F6b)"],
-         ["uncurry_curry_partial"]),
+        (("unnamedFixed", "shadowFixed", "prefixFixed"), ["uncurry_curry_fixed"], ["uncurry_curry_partial"]),
+        (("unnamedFixed", "shadowFixed", "prefixFixed", "crossFixed"), ["uncurry_spec_fixed (no side condition)"],
+         ["uncurry_spec_prefix (only the user's own clash left: F6b)", "uncurry_spec_partial"]),
+        (("unnamedFixed", "shadowFixed", "prefixFixed", "crossFixed", "voidFixed"), ["uncurry_compiles_fixed"], ["uncurry_compiles_partial"]),
         (("resultsFixed",), ["results_stripped"], []),
         (("unnamedFixed", "shadowFixed", "voidFixed"), ["plumb_compiles_fixed"],
          ["curry_compiles_partial", "flip_compiles_partial", "apply_compiles_partial", "curry_witnesses"]),
-        (("unnamedFixed", "shadowFixed", "crossFixed"), ["uncurry_spec_fixed"],
-         ["uncurry_spec_partial", "uncurry_compiles_partial", "uncurry_full_fails"]),
     ],
     "C16": [
         (("zeroFixed", "lhsFixed"), ["compose_compiles_fixed", "zero_ok_repaired"],
